@@ -62,6 +62,86 @@ Definition loc_rib_to_bmp (family : N) (net : val) (attr : option val) (nexthop 
                   end;
      rm_addpath := false |}.
 
+(* loc_rib_peer_up: the Peer Up of the Loc-RIB virtual peer (RFC 9069 4.4).  The OPEN it
+   fabricates (used as both the sent and the received OPEN) is described by its fields; its
+   wire form is the parameter [open_blob]. *)
+Record open_desc : Type := { o_asn : N; o_hold : N; o_rid : N; o_caps : list val }.
+
+Definition be_u32 (b : bytes) : N := be_dec b.      (* u32::from(Ipv4Addr) *)
+
+Definition loc_rib_open (router_id : bytes) (local_asn : N) : open_desc :=
+  {| o_asn := local_asn; o_hold := 0; o_rid := be_u32 router_id;
+     o_caps := [VL [VN 65; VN local_asn]]          (* FourOctetAsNumber(local_asn) *) |}.
+
+Definition loc_rib_peer_up (router_id : bytes) (local_asn : N) (open_blob : bytes) : bmp_msg :=
+  PeerUp (with_peer_type (pph_new 0 local_asn router_id 0 (IP4 [0;0;0;0]) 0) PEER_TYPE_LOC_RIB)
+         (IP4 [0;0;0;0]) 0 0 open_blob open_blob.
+
+(* fsm.rs SessionDownReason -> session_down_to_bmp *)
+Inductive session_down : Type :=
+| SDHoldTimerExpired | SDRemoteNotification (blob : bytes) | SDLocalNotification (blob : bytes)
+| SDFsmError | SDAdminShutdown | SDIoError.
+
+Definition session_down_to_bmp (r : option session_down) : down_reason :=
+  match r with
+  | None => RemoteUnexpected
+  | Some SDHoldTimerExpired => LocalFsm 0
+  | Some (SDRemoteNotification b) => RemoteNotification b
+  | Some (SDLocalNotification b) => LocalNotification b
+  | Some SDFsmError => LocalFsm 0
+  | Some SDAdminShutdown => LocalFsm 0
+  | Some SDIoError => RemoteUnexpected
+  end.
+
+(* table_manager.rs AdjRibOutChange -> adj_rib_out_to_bmp_update: always a single NLRI *)
+Definition adj_rib_out_to_update (family : N) (nlri : val) (attrs : option val) (nexthop : val) : update :=
+  match attrs with
+  | Some a => UReach family [nlri] nexthop a
+  | None => UUnreach family [nlri]
+  end.
+
+(* ---- how BmpCodec::encode / MrtCodec::encode configure their private PeerCodec for one
+   monitored update (packet/src/bmp.rs, mrt.rs): add-path tx as stated by the item; the
+   RFC 8950 form exactly for an IPv4-unicast announcement with an IPv6 next hop; the
+   4096-octet limit first and, if encode_to reports that the attributes leave no room,
+   the RFC 8654 limit; an error (never a panic) if that fails too.  The BGP encoder itself
+   is the Section variable [encode_to ext_nexthop ext_length addpath u] (None = Err). *)
+
+Definition nh_is_v6 (nh : val) : bool :=
+  match nh with
+  | VL [VL b] => Nat.eqb (length b) 16 || Nat.eqb (length b) 32
+  | _ => false
+  end.
+
+Definition needs_rfc8950 (u : update) : bool :=
+  match u with
+  | UReach f _ nh _ => (f =? 65537) && nh_is_v6 nh
+  | _ => false
+  end.
+
+Inductive embed_result : Type := Embedded (blob : bytes) | EncodeError | EncoderPanic.
+
+Section Embed.
+  Variable encode_to : bool -> bool -> bool -> update -> option bytes.
+
+  Definition embed (addpath : bool) (u : update) : embed_result :=
+    match encode_to (needs_rfc8950 u) false addpath u with
+    | Some b => Embedded b
+    | None =>
+        match encode_to (needs_rfc8950 u) true addpath u with
+        | Some b => Embedded b
+        | None => EncodeError
+        end
+    end.
+
+  (* before the fixes C19-3 / C19-4: classic form only, 4096 only, `.unwrap()` *)
+  Definition embed_before_fix (addpath : bool) (u : update) : embed_result :=
+    match encode_to false false addpath u with
+    | Some b => Embedded b
+    | None => EncoderPanic
+    end.
+End Embed.
+
 (* ---- the snapshot: peer address -> ((family, nlri) -> single-nlri change) *)
 
 Definition key := (N * val)%type.     (* (family, PathNlri) *)
@@ -248,6 +328,22 @@ Definition run_flush (cs : list change) (addr : ip) (h : pph) (flags : N) : val 
                               VNs (ip_octets (p_addr (rm_hdr m))); VN (p_ts (rm_hdr m))];
                           v_update (rm_update m); VB (rm_addpath m)]) ms;
       VList (fun am : ip * peer_map => VNs (ip_octets (fst am))) s'].
+
+Definition v_open (o : open_desc) : val := VL [VN 1; VN (o_asn o); VN (o_hold o); VN (o_rid o); VL (o_caps o)].
+
+Definition run_locup (router_id : bytes) (asn : N) (blob : bytes) : val :=
+  VL [VNs (bmp_encode [] (loc_rib_peer_up router_id asn blob)); VL [VNs blob; VNs blob];
+      VNs [0;0;0;0]; VN 0; VN 0; v_open (loc_rib_open router_id asn); v_open (loc_rib_open router_id asn)].
+
+Definition run_down (r : option session_down) (h : pph) : val :=
+  let reason := session_down_to_bmp r in
+  VL [VNs (bmp_encode [] (PeerDown h reason));
+      VNs (match reason with LocalNotification b | RemoteNotification b => b | _ => [] end);
+      VN (reason_code reason);
+      match reason with LocalFsm c => VN c | _ => VI (-1)%Z end].
+
+Definition run_out_update (family : N) (nlri : val) (attrs : option val) (nexthop : val) : val :=
+  v_update (adj_rib_out_to_update family nlri attrs nexthop).
 
 Definition run_mrt_conv (c : change) (blob : bytes) : val :=
   let '(h, u, ap) := adj_rib_in_to_mrt c in
